@@ -23,6 +23,23 @@ enum { PIPELINE_FG = 0, NOALLOC = 1 };
 
 static const char *LEVELS[] = {"NONE", "FATAL", "ERROR", "WARN", "INFO", "DEBUG", "TRACE"};
 
+// log subjects registered by the harness (package slot 21): names of 1 .. 120 bytes, because the prefix budget of
+// the formatters depends on the subject name's length
+static const size_t SUBJ_LENS[] = {1, 14, 40, 80, 87, 88, 89, 90, 91, 100, 120};
+static const int NSUBJ = sizeof SUBJ_LENS / sizeof SUBJ_LENS[0];
+static std::string g_subj_names[NSUBJ];
+static struct aws_log_subject_info g_subj_infos[NSUBJ];
+static struct aws_log_subject_info_list g_subj_list = {g_subj_infos, NSUBJ};
+static void register_subjects() {
+    for (int i = 0; i < NSUBJ; i++) {
+        g_subj_names[i] = std::string(SUBJ_LENS[i], (char)('A' + i));
+        g_subj_infos[i].subject_id = AWS_LOG_SUBJECT_BEGIN_RANGE(21) + (aws_log_subject_t)i;
+        g_subj_infos[i].subject_name = g_subj_names[i].c_str();
+        g_subj_infos[i].subject_description = "harness subject";
+    }
+    aws_register_log_subject_info_list(&g_subj_list);
+}
+
 static Case gen_case() {
     Case c;
     // cfg: logger kind, date format (0 rfc822, 1 iso, 2 iso basic), initial level
@@ -39,7 +56,7 @@ static Case gen_case() {
             case 2: len = pick(8192 - 140, 8192 + 20); break; // around the no-alloc logger's line buffer
             default: len = pick(0, 9000); break;
             }
-            return mkop(LOG, {pick(1, 6), pick(0, 1), shape, len, any_u64()});
+            return mkop(LOG, {pick(1, 6), weighted({3, 2, 3}) == 2 ? 2 + pick(0, NSUBJ - 1) : pick(0, 1), shape, len, any_u64()});
         }
         case 1: return mkop(SET_LEVEL, {pick(0, 6)});
         case 2: return mkop(FORMAT_DIRECT, {pick(1, 400), pick(1, 6), pick(0, 2), pick(0, 200), pick(0, 1)});
@@ -215,10 +232,17 @@ static void run(const Case &c, Ctx &ctx) {
         switch (op.kind) {
         case LOG: {
             int lv = (int)(1 + op.arg(0) % 6);
-            bool registered = op.arg(1) % 2 == 0;
-            aws_log_subject_t subject = registered ? (aws_log_subject_t)AWS_LS_COMMON_GENERAL : (aws_log_subject_t)0x7123;
+            uint64_t sk = op.arg(1) % (2 + NSUBJ);
+            bool registered = sk != 1;
+            aws_log_subject_t subject = sk == 0   ? (aws_log_subject_t)AWS_LS_COMMON_GENERAL
+                                        : sk == 1 ? (aws_log_subject_t)0x7123
+                                                  : g_subj_infos[sk - 2].subject_id;
             std::string sname = aws_log_subject_name(subject);
             if (!registered) PBT_CHECK(sname == "Unknown", "unregistered subject name [%s]", sname.c_str());
+            if (sk >= 2) {
+                PBT_CHECK(sname == g_subj_names[sk - 2], "registered subject name not returned");
+                if (sname.size() >= 80) ctx.tag("long_subject_name");
+            }
             size_t len = (size_t)(op.arg(3) % 9001);
             uint64_t seed = op.arg(4);
             std::string msg;
@@ -350,6 +374,7 @@ static void run(const Case &c, Ctx &ctx) {
 
 int main(int argc, char **argv) {
     aws_common_library_init(aws_default_allocator()); // registers the log subjects
+    register_subjects();
     Spec sp{"C14", "c14_log", gen_case, run,
             "<=40 ops: log calls through AWS_LOGF at each level with 5 format shapes and message lengths 0..9000 (dense around "
             "the no-alloc logger's 8192-byte buffer), level changes, conditional-get, direct formatter calls with buffers of "
